@@ -1505,8 +1505,8 @@ impl<'a> Iterator for DltMessageArgIterator<'a> {
                     if len != 1 {
                         // dlt-viewer persists bool with len 0
                         // see https://github.com/COVESA/dlt-viewer/issues/242
-                        if len != 0 {
-                            return None; // [Dlt139] with exception for dlt-viewer bug 242
+                        if tyle != 0 {
+                            return None; // [Dlt139] with exception for dlt-viewer bug 242 (not for the reserved tyle 6..15)
                         }
                         len = 1;
                     }
